@@ -30,6 +30,8 @@ type Module struct {
 
 // Universe is a generated registry.
 type Universe struct {
+	// Big: the first module has several hundred files
+	Big bool
 	Modules    []*Module
 	Provider   bufmoduletesting.OmniProvider
 	DigestType bufmodule.DigestType
@@ -41,6 +43,9 @@ type Options struct {
 	MaxFiles   int
 	AllowB4    bool
 	Extras     bool // LICENSE, README.md, junk files
+	// BigOdds > 0: one universe in BigOdds gives its first module 257-420 more (tiny) files - more than
+	// any batch, chunk or worker pool of a copy holds at once
+	BigOdds int
 }
 
 func uuidFromTape(t *tape.Tape, index int) uuid.UUID {
@@ -92,6 +97,15 @@ func New(t *tape.Tape, o Options) (*Universe, error) {
 			content := fmt.Sprintf("syntax = \"proto3\";\npackage m%d.f%d;\n%s// nonce %d\nmessage M%d_%d { string s = 1; }\n", i, j, imp, t.Draw("nonce", 100000), i, j)
 			m.Files[path] = []byte(content)
 			m.ModuleFiles[path] = []byte(content)
+		}
+		if i == 0 && o.BigOdds > 0 && t.Draw("bigmodule", o.BigOdds) == o.BigOdds-1 {
+			u.Big = true
+			for j, nbig := 0, 257+t.Draw("bigfiles", 164); j < nbig; j++ {
+				path := fmt.Sprintf("m0/big/g%03d.proto", j)
+				content := fmt.Sprintf("syntax = \"proto3\";\npackage m0.g%d;\n", j)
+				m.Files[path] = []byte(content)
+				m.ModuleFiles[path] = []byte(content)
+			}
 		}
 		if o.Extras {
 			if t.Draw("license", 3) == 1 {
